@@ -134,6 +134,8 @@ def _workload(case, rng):
         off = float(rng.choice([0.0, 0.0, 50.0, 1000.0]))
         traces = gen.float_traces(rng, n, T, tdtype, offset=off, sigma=float(rng.choice([1.0, 10.0])))
     traces = gen.layout(rng, traces)
+    if data is not None and name not in ('tstatic', 'tdpa'):
+        data = gen.layout_nd(rng, data)          # intermediate values in C / Fortran / transposed-buffer / strided layouts
     return spec, traces, data, n, T, ws, tdtype
 
 
